@@ -497,5 +497,19 @@ Definition run_cc_parse (x : xval) : xval :=
   | _ => bad_input
   end.
 
+(** component pipex.pair (the real-vs-real oracle of C03: the list of operations on which a host with and a host
+    without response cache answer differently): empty by Properties/C03.v [cache_transparent] whenever the scenario
+    decodes, its handlers honour the contract and no request carries If-Modified-Since *)
+Definition run_pipex_pair (x : xval) : xval :=
+  match x with
+  | XL [c; XL ops] =>
+      match d_configx c, d_all d_opx ops with
+      | Some _, Some _ => XL []
+      | _, _ => bad_input
+      end
+  | _ => bad_input
+  end.
+
 Definition cachex_table : list (bytes * (xval -> xval)) :=
-  [ (B "pipex.run", run_pipex); (B "pipex.run_nocache", run_pipex_nocache); (B "cc.parse", run_cc_parse) ].
+  [ (B "pipex.run", run_pipex); (B "pipex.run_nocache", run_pipex_nocache); (B "pipex.pair", run_pipex_pair);
+    (B "cc.parse", run_cc_parse) ].
